@@ -512,6 +512,57 @@ def judge_local_later(case):
         unload(ref)
 
 
+TWO_REF_FORMS = ["Union[{0}, {1}]", "Union[{1}, {0}]", "Optional[Union[{0}, {1}]]", "List[Union[{0}, {1}]]", "Union[{0}, {1}, int]", "Dict[str, Union[{1}, {0}]]"]
+
+
+def judge_two_refs(case):
+    """a combinator over TWO classes that are defined later: mappings and INSTANCES of either class come out as with the direct
+    spelling (classes defined first) - an instance of a member is that member's, whichever position it has"""
+    form, style = case.get("form"), case.get("style", "str")
+    if form not in TWO_REF_FORMS or style not in ("str", "future", "whole"):
+        raise HarnessError("bad two-refs case")
+    _n[0] += 1
+    P, Q, H = f"Pa{_n[0]}", f"Qa{_n[0]}", f"Ha{_n[0]}"
+    classes = f"class {P}(utype.Schema):\n    x: int\nclass {Q}(utype.Schema):\n    x: int\n    y: int = 0\n"
+    head = "import utype\nfrom typing import *\n"
+
+    def holder(a, b, whole=False):
+        t = form.format(a, b)
+        return f"class {H}(utype.Schema):\n    u: {repr(t) if whole else t}\n"
+    if style == "str":
+        fsrc = head + holder(repr(P), repr(Q)) + classes
+    elif style == "whole":
+        fsrc = head + holder(P, Q, whole=True) + classes
+    else:
+        fsrc = "from __future__ import annotations\n" + head + holder(P, Q) + classes
+    fwd, ref = load(fsrc, "trf"), load(head + classes + holder(P, Q), "trr")
+    try:
+        def wrapv(v):
+            return [v] if form.startswith("List") else {"k": v} if form.startswith("Dict") else v
+        fails = []
+        for tag, mk in (("mapping-with-the-second-class's-field", lambda m: {"x": 1, "y": 2}), ("mapping", lambda m: {"x": "1"}),
+                        ("instance-of-the-second-class", lambda m: getattr(m, Q)(x=1, y=2)), ("instance-of-the-first-class", lambda m: getattr(m, P)(x=3))):
+            a = oracle.outcome(getattr(fwd, H).__from__, {"u": wrapv(mk(fwd))})
+            b = oracle.outcome(getattr(ref, H).__from__, {"u": wrapv(mk(ref))})
+            if b[0] != "ok" or a[0] in ("other", "hang"):
+                continue
+            if a[0] != "ok":
+                fails.append((f"two-later-classes-in-a-combinator/fails/{tag}", {"form": form, "style": style, "error": str(a[1])[:200]}))
+                break
+
+            def shape(r):
+                u = r.u
+                u = u[0] if isinstance(u, list) else u["k"] if type(u) is dict else u
+                return (type(u).__name__[:2], oracle.plain(u))
+            if shape(a[1]) != shape(b[1]):
+                fails.append((f"two-later-classes-in-a-combinator/result-differs/{tag}", {"form": form, "style": style, "forward": repr(shape(a[1])), "direct": repr(shape(b[1]))}))
+                break
+        return {"status": "ok", "fails": fails, "unresolved": True}
+    finally:
+        unload(fwd)
+        unload(ref)
+
+
 def judge_shared_name(case):
     """one reference string used by several annotations of a declaration, one of them a bare field with its own Field
     constraints: the constraints belong to that field only, and every reference behaves as the direct spelling does"""
@@ -562,6 +613,8 @@ def run_case(case):
         return judge_shared_name(case)
     if case.get("part") == "local_later":
         return judge_local_later(case)
+    if case.get("part") == "two_refs":
+        return judge_two_refs(case)
     if case.get("part") == "inherit":
         return judge_inherit(case)
     if case.get("part") == "twins":
@@ -668,7 +721,7 @@ def campaign(ctx):
     def body(case):
         r = run_case(case)
         ctx.label(f"status_{r['status']}")
-        if case.get("part") in ("twins", "inherit", "local_later", "shared_name"):
+        if case.get("part") in ("twins", "inherit", "local_later", "shared_name", "two_refs"):
             ctx.label("part_" + case["part"])
             ctx.nt(case)
         else:
@@ -714,6 +767,14 @@ def campaign(ctx):
                 continue
             ctx.ev()
             body({"part": "local_later", "wrap": wrap, "what": what})
+    # a combinator over two classes defined later, given mappings and instances of either: enumerated completely
+    for form in TWO_REF_FORMS:
+        for style in ("str", "future", "whole"):
+            idx += 1
+            if idx % ctx.nshards != ctx.shard:
+                continue
+            ctx.ev()
+            body({"part": "two_refs", "form": form, "style": style})
     # one reference name in several annotations, one of them a constrained bare field: enumerated completely
     for order in (0, 1, 2):
         for kind in ("class", "func"):
